@@ -321,7 +321,7 @@ impl Check for C08 {
     }
     fn default_runs(&self, tier: Tier) -> u64 {
         match tier {
-            Tier::Quick => 800,
+            Tier::Quick => 1600,
             Tier::Thorough => 40000,
         }
     }
